@@ -1,6 +1,6 @@
 /* C11.hex.table : hex + 4*c is '%' followed by the two UPPER-case hex digits of c, then NUL. */
 void harness(void) {
-  uint8_t c;
+  NONDET(uint8_t, c);
   const char *e = G_hex + (size_t)c * 4;
   __CPROVER_assert(e[0] == '%', "postcondition: escape starts with %");
   __CPROVER_assert(e[1] == SPEC_HEXU(c >> 4), "postcondition: high nibble upper-case hex");
